@@ -20,6 +20,14 @@ from datetime import datetime
 T = TypeVar('T')
 
 
+def describe_error(error: BaseException) -> str:
+    """``str(error)`` for reports and logs; the class name when the exception's own ``__str__`` fails."""
+    try:
+        return str(error)
+    except Exception:
+        return type(error).__name__
+
+
 class SignalType(Enum):
     """Types of signals in biological systems."""
     EXTERNAL = "external"       # From outside the cell (user input)
